@@ -115,12 +115,18 @@ def file_ok(eng, fp, k):
 
 
 # --------------------------------------------------------------------------- iter_path_patterns_items
-def _events_since_havoc(st, skip=("Log", "CallResult")):
+def _events_since_havoc(st, skip=("Log", "CallResult"), ordinal=None):
+    """Events of the current iteration of the outermost (or the given) invariant-cut loop:
+    everything after the last LoopHavoc marker of that loop, markers of inner loops skipped."""
     ev = st.log
-    i = max([j for j, e in enumerate(ev) if e[0] == "LoopHavoc"], default=None)
-    if i is None:
+    marks = [(j, e[1]) for j, e in enumerate(ev) if e[0] == "LoopHavoc"]
+    if not marks:
         return []
-    return [e for e in ev[i + 1 :] if e[0] not in skip]
+    outer = marks[0][1] if ordinal is None else ordinal
+    own = [j for j, o in marks if o == outer]
+    if not own:
+        return []
+    return [e for e in ev[own[-1] + 1 :] if e[0] not in skip and e[0] != "LoopHavoc"]
 
 
 def _ippi_on_yield(a, v, st):
